@@ -238,11 +238,12 @@ class IfWriteHandler(AbstractWriteHandler):
 
         exits = v.out_edges()
 
-        self.decompiler.source_map_add_opcode(op.offset)
-        opt_space = " " if not include_newline_in_header else ""
+        if not include_newline_in_header:
+            self.decompiler.write_stmnt(" ", False)
+        self.decompiler.source_map_add_opcode(op.offset, continues_line=not include_newline_in_header)
         not_str = "" if not m.is_not else " not"
         self.decompiler.write_stmnt(
-            f"{opt_space}{header_str}{not_str} ( {' || '.join(list_of_clauses)} )", include_newline_in_header
+            f"{header_str}{not_str} ( {' || '.join(list_of_clauses)} )", include_newline_in_header
         )
         else_edge = [e for e in exits if e["is_else"]][0]
         if_edge = [e for e in exits if not e["is_else"]][0]
